@@ -113,7 +113,7 @@ def _nums(s):
 
 def build_err_to_coq(kind, dbg):
     if kind in ("EmptyParameters", "EmptyModel", "MissingX", "MissingInitialParameters", "IllegalCallToPartialDeriv"):
-        return "%s _" % kind
+        return kind
     ss = [name_id(s) for s in _strs(dbg)]
     if kind == "DuplicateParameterNames":
         return "DuplicateParameterNames %s" % cnames(ss)
@@ -123,7 +123,7 @@ def build_err_to_coq(kind, dbg):
         return "%s %s %s" % (kind, cN(ss[0]), cnames(ss[1:]))
     if kind == "IncorrectParameterCount":
         m = re.search(r"actual: (\d+), expected: (\d+)", dbg)
-        return "IncorrectParameterCount _ %s %s" % (cnat(int(m.group(1))), cnat(int(m.group(2))))
+        return "IncorrectParameterCount %s %s" % (cnat(int(m.group(1))), cnat(int(m.group(2))))
     return None
 
 
